@@ -10,12 +10,29 @@ Sub-checks
             of the lattice 1/(K D): all break points of these samplers on such targets lie on that lattice, so the INTEGER
             count per state must equal p_k K D exactly. The "never" clause is judged on single floats as well: every point
             j/D and x/K (the break points themselves), the float on either side of it, 0 and (D = 16: exact sums) 1-2^-53
-            must give a state of positive probability inside the range.
- rawx       hand-listed extremes (tiny / dominant / tied / zero entries, K <= 11) by partition recovery.
+            must give a state of positive probability inside the range. CALLER'S ARRAY: the vector is handed over as an array
+            that is compared with a copy once the constructor has returned (must be unchanged) and then overwritten by
+            another probability vector before the first draw (the sampler must not read it any more: keys
+            constructor-modifies-the-caller-s-vector / keeps-a-reference-to-the-caller-s-vector).
+ rawx       hand-listed extremes (tiny / dominant / tied / zero entries, a unit vector, the vector of ONE entry; K <= 11) by
+            partition recovery; the batch call against the single entry (see rawbig). ARGUMENT FORM: each vector also as
+            list, tuple, non-contiguous view, read-only array (and, 0/1 vectors, integer array, boolean array, list of ints):
+            the recovered pieces must be those of the float array, the table method must give the same answers on 64
+            scripted words.
  rawbig     vectors of 257, 300 and 1000 entries (1024 and 4096 in thorough): linear, geometric blocks with ties and zeros,
             uniform, three dominant entries + a long tail; alias / tree / Huffman by partition recovery, the table method (on
-            the dominant vector, whose table has direct and residual slots) by `table_law`. Index dtypes, the incomplete last
-            level of the implicit heap and long tie runs of the Huffman heap only show at these sizes.
+            the dominant and thresholds vectors, whose tables have direct and residual slots) by `table_law`. Index dtypes,
+            the incomplete last level of the implicit heap and long tie runs of the Huffman heap only show at these sizes.
+            Shape "thresholds" = vectors LONGER THAN THE SMALL INTEGER TYPES: K = 300, 32771 and 65539 (thorough: also 128,
+            129, 256, 32768, 32769, 40001, 65536, 65537, 70001 and the dense linear vector of 70001 entries), zero except at
+            the indices 0, 127, 128, 255, 256, 32767, 32768, 65535, 65536 and K - 1, where p = (m + f)/256 with m >= 1 (each of
+            these states owns slots of the 256-slot table), growing with the index, the fractional parts summing to 2 (two
+            residual slots): all four samplers, exact law (sweep of 2^17 probes + every alias column edge; the table by
+            `table_law`). Violation keys of these sizes end in :more-than-32768-entries / :more-than-65536-entries.
+            For every vector the public batch call sample(size) on scripted uniforms (first float of up to 120 pieces, the
+            float before, 0, top; table: 352 scripted words incl. every low byte) equals the element-wise single entry, with
+            the size as Python int, numpy int64 / int32 and 0-d array (the path simulators pass numpy Poisson numbers);
+            sample(0) is empty.
  rawtable   table method = function of a 32-bit integer (seam random.getrandbits; the seam answers a request for n bits with
             the n leading bits of the scripted word, as the environment would): for each of the 256 low bytes the map
             "upper 24 bits -> state" is recovered exactly by integer bisection (a low byte whose answer does not depend on 4
@@ -28,7 +45,10 @@ Sub-checks
             table), whatever the length of the piece. The batch call (one u at the start of up to 400 pieces, the float
             before it, 0, top) equals the element-wise single-uniform call (numpy.random.uniform seam; the seam answers
             low + (high-low) w for the scripted fractions w, so a request for another interval is seen in the answers; the
-            table method: sample(96) against 96 x sample(1) on scripted words). The inversion sampler's hidden
+            table method: sample(96) against 96 x sample(1) on scripted words). ARGUMENT FORM (4b, every chain case, 12
+            uniforms spread over the pieces): the size of the batch as numpy int64 / int32 / 0-d array, an empty batch
+            followed by a batch of one, and the uniform of the single entry point as numpy float64, as 0-d array and
+            (u = 0) as Python int give the answers of the usual form. The inversion sampler's hidden
             numpy.random.choice is an enumerated environment answer (first / last element): any u whose result depends on
             it beyond the last (8 + number of states) ulps of [0,1) is a violation. Inversion also under a scaled-down log
             (`_max_storage` below the number of states); if the log then grows beyond it the scaled regime was not reached
@@ -39,6 +59,7 @@ Sub-checks
             (mc.alphabets.with_reinit) on one grid; ONE-SIDED model (HEM p = 1; p = 0 is refused by the library: the
             states of the negative half axis have probability exactly 0) on fixed / geometric-bounds / hand-made grids;
             hand-made CTMCGrid axes with ONE point on one side of the origin and several on the other (both orientations);
+            the smallest chain (the origin and ONE state, HEM p = 1 on the axis [0, h]);
             a 400-state chain (h = 0.01, 401 points; every method but the table). 2-d (inversion, adapted tree): Clayton pairs (one with eta = 1: the mixed-sign
             quadrants have probability 0), independent and complete-dependence copula, one one-sided margin x {fixed 3 / 5
             (refined once too), credit symmetric / asymmetric, uniform by model truncation (a model whose left bound falls
@@ -52,6 +73,13 @@ Sub-checks
             state of probability 0 returned by an ADAPTED tree on one interior float (u > 0): these trees descend on masses
             of unions of cells, which are the sums of the cell masses up to rounding only (counted). The origin and states
             off the grid are judged on every float, for every sampler.
+ chainbig   n-d chains with >= 10 001 points on their axes together (2-d 5001 x 5001, h = 0.0004; thorough: a second model and
+            3-d 3335^3): the adapted tree then bisects its AXIS buckets too instead of reading pre-computed cumulative sums.
+            25 million states cannot be recovered completely: a sweep of 4096 uniforms, then for up to 12 spread states of
+            each class met (each axis, off the axes) the whole interval of uniforms mapped to the state (doubling steps +
+            bisection to neighbouring floats) must have the length mass(reference cell) / intensity (1e-12 + 1e-9 rel.);
+            origin / off-grid answers judged on every probe; the sweep drawn again downwards on the same object and in one
+            batch call on a fresh one.
  history    explicit-state search (BFS) over operation histories on ONE sampler object, for every method (inversion with the
             library's and with shrunk logs, adapted trees 1-d / n-d driven with a RE-USED argument array, alias, tree,
             Huffman, table), 1-d, 2-d and 3-d chains, including a one-point half axis and the one-sided model.
@@ -59,20 +87,30 @@ Sub-checks
             thinned to 14 / 12 / 10 / 8 values with the cost of the chain); a batch call sample(3) on a sub-menu of 5;
             and, at most once per history and anywhere before its last draw, an operation without a draw:
             the public cost reset (process.reset_one_simulation_cost + sampling.reset_sampling_cost: what the engines call
-            between runs); copy.deepcopy of the process (the copy is used from then on; what next_level does); a dill
-            round trip of the process (what the pathos pool does); a SECOND sampler of the same method for another model
-            built on the same grid object and drawn from at the sub-menu. Every draw of the menu is tried right after
-            each operation. Histories hold up to 3 draw-bearing events for the inversion sampler (4 in thorough) and 2
+            between runs); copy.deepcopy of the process (what next_level does); a dill round trip of the process (what the
+            pathos pool does); copy.copy of the process and of its sampler (containers shared with the original) - in all
+            three the copy is used from then on, and the ORIGINAL is drawn from at the sub-menu right after the copy was
+            taken (it must answer as before, and the copy must not notice); a SECOND sampler of the same method for
+            another model built on the same grid object and drawn from at the sub-menu. Every draw of the menu is tried
+            right after each operation. Histories hold up to 3 draw-bearing events for the inversion sampler (4 in thorough) and 2
             (3) for the samplers that only hold caches of pure values. Invariant: every answer equals the answer of a fresh
             sampler for the same u; the second sampler answers as its fresh twin (same draws, own copy of the grid).
+            ACCUMULATION: after the search ONE sampler is drawn at the mid-point of every piece (up to 240) downwards,
+            upwards, after a cost reset in steps of 7, after a deepcopy in steps of 11 on the copy, and in one batch call
+            (several hundred draws on one object); every answer must be the one of the first sampler of the case.
             Canonical state = digest of the integer / float / string attributes and container sizes of the sampler and of
             the rpylib.distribution objects it owns (cost counters excluded: memo length, _last_projected_index,
             _index_after_last_logged, _switch/_kk if they exist ...) + for cache-only samplers the set of u drawn + the
             pending operation when the last event was one.
 Exclusions (statement silent / not reachable): grid.refine() after the sampler was built (the target law itself changes);
  n-d probability-step grids (their middle() is one-dimensional; C13); model-truncated grids for one-sided models (the
- truncation helper divides by the mass of the empty side); the un-cached axis branch of the n-d adapted tree (>= 10 001
- points: not reachable at an affordable size); the diffusion matrix of the copula chain (its pathos pool is answered by
+ truncation helper divides by the mass of the empty side); a complete recovery of the law on chains of >= 10 001 points
+ (chainbig judges selected states); chains of more than 32768 states through the factory (the table method's exact law on a
+ dense vector of that length costs 10^8 draws: the size classes are covered on the sampler classes themselves, rawbig);
+ probability vectors of shape (1, n) / (n, 1) and the empty vector (refused or not a probability vector); the uniform of
+ the n-d adapted tree's sample_with_us in another form than a float array (it is documented to work in place on the array it
+ is given; a 0-d ARRAY handed to the 1-d adapted tree's sample_with_u is also decremented in place: counted as
+ outside the statement, the answer itself is judged); a two-sided companion model on the one-state grid; the diffusion matrix of the copula chain (its pathos pool is answered by
  zeros while the constructor runs); numpy's Generator API (the seams patch numpy.random.uniform / choice, which is what the
  library calls).
 Assumption (stated in the evidence): partition recovery starts from a dyadic sweep of n0 >= 16 x (number of states) probes;
@@ -97,8 +135,10 @@ RULE = (
     "raw: every weak composition of D units into K parts for the stated (K, D), each probed on the complete lattice 1/(KD) and on "
     "both sides of every possible break point; rawbig: the stated long vectors; "
     "chain: every (model, grid, refinement, sampling method) of the stated lattice, law recovered by bisection to 1 ulp; "
-    "history: BFS over operation histories (draws, cost reset, deepcopy, dill round trip, batch call, second sampler on the grid) "
-    "up to the stated depth; a case is non-trivial when a law with at least two states of "
+    "chainbig: the stated sweep and selected states of chains with >= 10001 axis points; "
+    "history: BFS over operation histories (draws, cost reset, deepcopy / copy.copy / dill round trip with the original used "
+    "further, batch call, second sampler on the grid) up to the stated depth, then one long run of several hundred draws; "
+    "a case is non-trivial when a law with at least two states of "
     "positive probability was compared; states/transitions are those of the history search"
 )
 ASSUMPTIONS = [
@@ -266,6 +306,7 @@ CGMY12 = {"family": "cgmy", "exp": False, "params": {"c": 1.0, "g": 15.0, "m": 2
 MERTON_EXP = {"family": "merton", "exp": True, "params": {}, "r": 0.02, "d": 0.0, "spot": 100.0}
 ONE_LEFT = {"kind": "custom", "label": "one-left-point", "h": 0.1, "axis": [-0.1, 0.0, 0.1, 0.2, 0.3], "origin": 1}
 ONE_RIGHT = {"kind": "custom", "label": "one-right-point", "h": 0.1, "axis": [-0.3, -0.2, -0.1, 0.0, 0.1], "origin": 3}
+ONE_STATE = {"kind": "custom", "label": "one-state", "h": 0.1, "axis": [0.0, 0.1], "origin": 0}
 ONE_LEFT_3D = {"kind": "custom", "label": "one-left-point", "h": 0.1, "axis": [-0.1, 0.0, 0.1, 0.2], "origin": 1}
 METHODS_1D = ["ALIAS", "TABLE", "BINARYSEARCHTREE", "HUFFMANNTREE", "INVERSION", "BINARYSEARCHTREEADAPTED1D"]
 METHODS_ND = ["INVERSION", "BINARYSEARCHTREEADAPTED"]
@@ -325,6 +366,8 @@ def chain_specs(tier):
     add1(HEM_POS, {"kind": "geometric-bounds", "h": 0.1, "bounds": [-0.7, 0.4], "n_side": 3}, 0)
     add1(HEM_POS, ONE_LEFT, 0)
     add1(HEM_POS, ONE_RIGHT, 0)
+    # the smallest chain: the origin and ONE state (probability 1)
+    add1(HEM_POS, ONE_STATE, 0)
     if thorough:
         add1(HEM_POS, ONE_RIGHT, 1)
         add1(HEM_POS, {"kind": "fixed", "h": 0.1, "n": 3}, 0)
@@ -428,11 +471,26 @@ def history_specs(tier):
 
 
 def rawbig_specs(tier):
-    out = [(257, "uniform"), (300, "linear"), (300, "geometric-ties-zeros"), (300, "dominant"), (1000, "linear"),
-           (1000, "geometric-ties-zeros")]
+    out = [(257, "uniform"), (300, "linear"), (300, "geometric-ties-zeros"), (300, "dominant"), (300, "thresholds"), (1000, "linear"),
+           (1000, "geometric-ties-zeros"), (32771, "thresholds"), (65539, "thresholds")]
     if tier == "thorough":
-        out += [(1000, "uniform"), (1024, "uniform"), (1000, "dominant"), (4096, "linear"), (4096, "geometric-ties-zeros")]
+        out += [(1000, "uniform"), (1024, "uniform"), (1000, "dominant"), (4096, "linear"), (4096, "geometric-ties-zeros"),
+                (128, "thresholds"), (129, "thresholds"), (256, "thresholds"), (32768, "thresholds"), (32769, "thresholds"),
+                (40001, "thresholds"), (65536, "thresholds"), (65537, "thresholds"), (70001, "thresholds"), (70001, "linear")]
     return [{"sub": "rawbig", "K": K, "shape": s} for K, s in out]
+
+
+def chainbig_specs(tier):
+    """n-d chains with at least 10 001 points on their axes together: the adapted tree then does not pre-compute the
+    cumulative sums of its axis buckets but bisects them like the others."""
+    out = [{"sub": "chainbig", "dim": 2, "model": {"margins": ["hem", "vg"], "copula": CLAYTON},
+            "grid": {"kind": "fixed", "h": 0.0004, "n": 5001, "refine": 0}, "method": "BINARYSEARCHTREEADAPTED"}]
+    if tier == "thorough":
+        out.append({"sub": "chainbig", "dim": 2, "model": {"margins": ["cgmy05", "hem"], "copula": {"kind": "clayton", "theta": 3.0, "eta": 1.0}},
+                    "grid": {"kind": "fixed", "h": 0.0004, "n": 5001, "refine": 0}, "method": "BINARYSEARCHTREEADAPTED"})
+        out.append({"sub": "chainbig", "dim": 3, "model": {"margins": ["hem", "vg", "hem2"], "copula": CLAYTON},
+                    "grid": {"kind": "fixed", "h": 0.0006, "n": 3335, "refine": 0}, "method": "BINARYSEARCHTREEADAPTED"})
+    return out
 
 
 def cases(tier):
@@ -452,13 +510,15 @@ def cases(tier):
         for K in range(1, (5 if thorough else 4)):
             out.append({"sub": "rawtable", "D": D, "K": K})
     out += rawbig_specs(tier)
+    out += chainbig_specs(tier)
     out += chain_specs(tier)
     out += history_specs(tier)
     return out
 
 
 def check_case(sh, case):
-    {"raw": _raw, "rawx": _rawx, "rawbig": _rawbig, "rawtable": _rawtable, "chain": _chain, "history": _history}[case["sub"]](sh, case)
+    {"raw": _raw, "rawx": _rawx, "rawbig": _rawbig, "rawtable": _rawtable, "chain": _chain, "chainbig": _chainbig,
+     "history": _history}[case["sub"]](sh, case)
 
 
 # ----------------------------------------------------------------------------------------------------------------------
@@ -478,24 +538,88 @@ def alias_edges(K, hi=1.0):
     return out
 
 
-def raw_samplers(p):
+def raw_objects(p):
+    """name -> constructor of (sampler object, u -> state index) of the three uniform-driven raw samplers on the vector p
+    (handed over as it is: array, list, tuple ...)."""
     from rpylib.distribution.variate import huffmantree as H
     from rpylib.distribution.variate.alias import AliasMethod
     from rpylib.distribution.variate.binarysearchtree import BinarySearchTree
 
     def alias():
         s = AliasMethod(p, _ident)
-        return lambda u: int(s._draw_with_u(u))
+        return s, lambda u: int(s._draw_with_u(u))
 
     def bst():
         s = BinarySearchTree(p, _ident)
-        return lambda u: int(s.sample_with_u(u))
+        return s, lambda u: int(s.sample_with_u(u))
 
     def huff():
         s = H.HuffmanTree(p, _ident)
-        return lambda u: int(H.sample_with_u(u, s.head)[0])
+        return s, lambda u: int(H.sample_with_u(u, s.head)[0])
 
     return {"alias": alias, "binarysearchtree": bst, "huffmantree": huff}
+
+
+def raw_samplers(p):
+    return {name: (lambda mk=mk: mk()[1]) for name, mk in raw_objects(p).items()}
+
+
+def raw_batch(s, us, size):
+    """the public batch call sample(size=...) of a raw sampler on scripted uniforms (numpy.random.uniform seam): list of ints."""
+    import rpylib.distribution.univariate.uniform as U
+
+    orig = U.npr.uniform
+    U.npr.uniform = uniform_answer(us, 1.0)
+    try:
+        r = s.sample(size=size)
+    finally:
+        U.npr.uniform = orig
+    return [int(x) for x in np.asarray(r).ravel()]
+
+
+def table_batch(tm, words, size):
+    """the public batch call sample(size) of a table method on scripted 32-bit words: list of ints."""
+    from rpylib.distribution.variate import table as T
+
+    orig = T.random.getrandbits
+    dq = collections.deque(words)
+    T.random.getrandbits = lambda nbits: word_for(dq.popleft(), nbits)
+    try:
+        r = tm.sample(size)
+    finally:
+        T.random.getrandbits = orig
+    return [int(x) for x in np.asarray(r).ravel()]
+
+
+SIZE_FORMS = (("python-int", int), ("numpy-int64", np.int64), ("numpy-int32", np.int32), ("0-d-array", np.array))
+
+
+def judge_raw_batch(sh, sub, name, s, f, pieces, hi, label, suffix=""):
+    """batch call of a raw sampler = element-wise single-uniform entry, on the first float of up to 120 pieces, the float before
+    it, 0 and the last float; the size handed over as Python int, numpy integers (what the library passes: Poisson numbers)
+    and 0-d array; sample(0) is empty."""
+    sel = list(range(len(pieces)))
+    if len(sel) > 120:
+        sel = sorted({round(i * (len(pieces) - 1) / 119) for i in range(120)})
+    us = [pieces[i][0] for i in sel] + [math.nextafter(pieces[i][0], -math.inf) for i in sel if i > 0] + [0.0, math.nextafter(hi, -math.inf)]
+    us = [u for u in us if 0.0 <= u < hi]
+    single = [f(u) for u in us]
+    for fname, conv in SIZE_FORMS:
+        try:
+            got = raw_batch(s, us, conv(len(us)))
+        except Exception as e:  # noqa
+            sh.violation(f"C02:{sub}:{name}:batch-call-raises-{type(e).__name__}:size-as-{fname}{suffix}", f"{label}: {e!r}", None)
+            continue
+        sh.count("evaluations", len(us))
+        if got != single:
+            j = next((i for i, (a, b) in enumerate(zip(got, single)) if a != b), -1)
+            sh.violation(f"C02:{sub}:{name}:batch-differs-from-single-uniform-entry:size-as-{fname}{suffix}",
+                         f"{label}: sample(size={len(us)}) on scripted uniforms: element {j}: batch {got[j] if j >= 0 else len(got)} vs single {single[j] if j >= 0 else len(single)}", None)
+    try:
+        if len(raw_batch(s, us, 0)):
+            sh.violation(f"C02:{sub}:{name}:batch-of-size-0-not-empty{suffix}", f"{label}", None)
+    except Exception as e:  # noqa
+        sh.violation(f"C02:{sub}:{name}:batch-call-raises-{type(e).__name__}:size-0{suffix}", f"{label}: {e!r}", None)
 
 
 def vec_class(c):
@@ -517,39 +641,61 @@ def _raw(sh, case):
     singles = [0.0] + ([ONE_MINUS] if D & (D - 1) == 0 else [])
     for e in pts:
         singles += [e, math.nextafter(e, math.inf), math.nextafter(e, -math.inf)]
+    def lattice(f):
+        cnt = [0] * K
+        for u in probes:
+            k = f(u)
+            if not (0 <= k < K):
+                return None, (u, k)
+            cnt[k] += 1
+        return cnt, None
+
+    # the caller's array after the constructor returned: it must be unchanged, and the caller may re-use it (here: overwritten
+    # by another probability vector before the first draw) without any effect on the sampler
+    other = np.zeros(K)
+    other[-1] = 1.0
     for c in compositions(D, K):
         if case["first"] is not None and c[0] != case["first"]:
             continue
         p = np.array(c, dtype=float) / D
-        for name, mk in raw_samplers(p).items():
+        parr = p.copy()
+        for name, mk in raw_objects(parr).items():
             sh.count("evaluations", len(probes) + len(singles))
             try:
-                f = mk()
-                cnt = [0] * K
-                for u in probes:
-                    k = f(u)
-                    if not (0 <= k < K):
-                        sh.violation(f"C02:raw:{name}:state-outside-range:{vec_class(c)}", f"p={list(c)}/{D}: u={u} -> {k}", None)
-                        break
-                    cnt[k] += 1
+                parr[:] = p
+                _, f = mk()
+                if not np.array_equal(parr, p):
+                    sh.violation(f"C02:raw:{name}:constructor-modifies-the-caller-s-vector:{vec_class(c)}",
+                                 f"p={list(c)}/{D}: the array handed over reads {parr.tolist()} after the constructor returned", None)
+                parr[:] = other
+                cnt, out = lattice(f)
+                if out is not None:
+                    sh.violation(f"C02:raw:{name}:state-outside-range:{vec_class(c)}", f"p={list(c)}/{D}: u={out[0]} -> {out[1]}", None)
+                    continue
+                want = [cj * K for cj in c]
+                if cnt != want:
+                    parr[:] = p
+                    cnt2, _ = lattice(mk()[1])
+                    if cnt2 == want:
+                        sh.violation(f"C02:raw:{name}:keeps-a-reference-to-the-caller-s-vector:{vec_class(c)}",
+                                     f"p={list(c)}/{D}: lattice counts {cnt} (units 1/{K * D}) instead of {want} once the caller has overwritten "
+                                     f"its array by {other.tolist()} after the construction", {"p": list(c), "D": D})
+                        continue
+                    zero_hit = any(w == 0 and g > 0 for w, g in zip(want, cnt))
+                    cls = "zero-probability-state-returned" if zero_hit else "law-differs"
+                    sh.violation(f"C02:raw:{name}:{cls}:{vec_class(c)}",
+                                 f"p={list(c)}/{D}: lattice counts {cnt} (units 1/{K * D}) instead of {want}", {"p": list(c), "D": D})
                 else:
-                    want = [cj * K for cj in c]
-                    if cnt != want:
-                        zero_hit = any(w == 0 and g > 0 for w, g in zip(want, cnt))
-                        cls = "zero-probability-state-returned" if zero_hit else "law-differs"
-                        sh.violation(f"C02:raw:{name}:{cls}:{vec_class(c)}",
-                                     f"p={list(c)}/{D}: lattice counts {cnt} (units 1/{K * D}) instead of {want}", {"p": list(c), "D": D})
-                    else:
-                        for u in singles:
-                            k = f(u)
-                            if not (0 <= k < K):
-                                sh.violation(f"C02:raw:{name}:state-outside-range-at-single-float:{vec_class(c)}",
-                                             f"p={list(c)}/{D}: u={u!r} -> {k}", None)
-                                break
-                            if c[k] == 0:
-                                sh.violation(f"C02:raw:{name}:zero-probability-state-returned{where_class(u, 0.0)}:{vec_class(c)}",
-                                             f"p={list(c)}/{D}: u={u!r} -> state {k} of probability 0", {"p": list(c), "D": D, "u": u})
-                                break
+                    for u in singles:
+                        k = f(u)
+                        if not (0 <= k < K):
+                            sh.violation(f"C02:raw:{name}:state-outside-range-at-single-float:{vec_class(c)}",
+                                         f"p={list(c)}/{D}: u={u!r} -> {k}", None)
+                            break
+                        if c[k] == 0:
+                            sh.violation(f"C02:raw:{name}:zero-probability-state-returned{where_class(u, 0.0)}:{vec_class(c)}",
+                                         f"p={list(c)}/{D}: u={u!r} -> state {k} of probability 0", {"p": list(c), "D": D, "u": u})
+                            break
             except Exception as e:  # noqa
                 sh.violation(f"C02:raw:{name}:raises-{type(e).__name__}:{vec_class(c)}", f"p={list(c)}/{D}: {e!r}", None)
         if sum(1 for x in c if x) >= 2:
@@ -561,7 +707,7 @@ def _raw(sh, case):
         sh.sample({"sub": "raw", "example_vector": [3 / 16, 0.0, 13 / 16], "probes": 48 + len(singles), "samplers": ["alias", "bst", "huffman"]})
 
 
-def judge_vector(sh, sub, name, p, pieces, hi, label):
+def judge_vector(sh, sub, name, p, pieces, hi, label, sfx=""):
     """Law of a raw sampler recovered as pieces against the vector p: lengths within 1e-12 + 1e-9 p_k; a state of probability
     exactly 0 or outside the range must not be returned on any probe (a piece of one float counts)."""
     K = len(p)
@@ -569,8 +715,16 @@ def judge_vector(sh, sub, name, p, pieces, hi, label):
     # the float sum of p may fall short of 1: the last (8 + K) ulps of [0, 1) belong to no state of the target and are not
     # judged against a probability of 0
     top_zone = hi * (1.0 - (8 + K) * ULP)
+    said = collections.Counter()
+
+    def say(cls, text):
+        # (a broken sampler on a long vector is wrong for thousands of states: the first 8 of each class are written out)
+        said[cls] += 1
+        if said[cls] <= 8:
+            sh.violation(f"C02:{sub}:{name}:{cls}{sfx}", f"{label}: {text}", None)
+
     for k in sorted(set(L) - set(range(K))):
-        sh.violation(f"C02:{sub}:{name}:state-outside-range", f"{label}: state {k} returned", None)
+        say("state-outside-range", f"state {k} returned")
     for k in range(K):
         got = L.get(k, 0.0)
         if p[k] == 0:
@@ -579,14 +733,30 @@ def judge_vector(sh, sub, name, p, pieces, hi, label):
                 if at >= top_zone:
                     sh.count("rounding-zone-answers-not-judged")
                     continue
-                cls = "zero-probability-state-returned" + where_class(at, ln)
-                sh.violation(f"C02:{sub}:{name}:{cls}", f"{label}: state {k} of probability 0 returned from u={at!r} on a length {ln!r}", None)
+                say("zero-probability-state-returned" + where_class(at, ln), f"state {k} of probability 0 returned from u={at!r} on a length {ln!r}")
         elif abs(got - p[k]) > 1e-12 + 1e-9 * p[k]:
-            sh.violation(f"C02:{sub}:{name}:law-differs", f"{label}: state {k} gets length {got!r} instead of {p[k]!r}", None)
+            say("law-differs", f"state {k} gets length {got!r} instead of {p[k]!r}")
+
+
+def vector_forms(p):
+    """the same probability vector in the other forms a caller may hand over: list, tuple, a non-contiguous view, a read-only
+    array (a constructor that writes into its argument raises on it), and for 0/1 vectors integer and boolean arrays."""
+    p = np.asarray(p, dtype=float)
+    wide = np.zeros(2 * len(p))
+    wide[::2] = p
+    ro = p.copy()
+    ro.flags.writeable = False
+    forms = [("list", p.tolist()), ("tuple", tuple(p.tolist())), ("non-contiguous-view", wide[::2]), ("read-only-array", ro)]
+    if all(x in (0.0, 1.0) for x in p.tolist()):
+        forms += [("integer-array", p.astype(np.int64)), ("boolean-array", p.astype(bool)), ("list-of-ints", [int(x) for x in p.tolist()])]
+    return forms
 
 
 def _rawx(sh, case):
-    """hand-listed extremes by partition recovery (break points not on a convenient lattice)."""
+    """hand-listed extremes by partition recovery (break points not on a convenient lattice); every vector also in each of
+    the other forms of `vector_forms`: same pieces as with the float array (table method: same answers on 64 scripted words)."""
+    from rpylib.distribution.variate import table as T
+
     vecs = [
         [1 - 2.0 ** -20, 2.0 ** -20],
         [2.0 ** -30, 1 - 2.0 ** -29, 2.0 ** -30],
@@ -596,21 +766,74 @@ def _rawx(sh, case):
         [1.0 / 7] * 7,
         [0.0, 0.25, 0.0, 0.75, 0.0],
         [2.0 ** -k for k in range(1, 11)] + [2.0 ** -10],
+        [0.0, 1.0, 0.0],
+        [1.0],
     ]
+    words = [((k * 2654435761) % (1 << 32)) for k in range(1, 65)]
     for p in vecs:
         p = np.array(p, dtype=float)
         K = len(p)
-        for name, mk in raw_samplers(p).items():
+        usual = {}
+        for name, mk in raw_objects(p.copy()).items():
             try:
-                f = mk()
+                s_, f = mk()
                 pieces, ev, hi = recover_partition(f, 1 << 12, extra=alias_edges(K))
             except Exception as e:  # noqa
                 sh.violation(f"C02:rawx:{name}:raises-{type(e).__name__}", f"p={p.tolist()}: {e!r}", None)
                 continue
             sh.count("evaluations", ev)
             judge_vector(sh, "rawx", name, p, pieces, hi, f"p={p.tolist()}")
+            judge_raw_batch(sh, "rawx", name, s_, f, pieces, hi, f"p={p.tolist()}")
+            usual[name] = pieces
+        try:
+            usual_table = table_batch(T.TableMethod(p, _ident), words, len(words))
+        except Exception as e:  # noqa
+            sh.violation(f"C02:rawx:table:raises-{type(e).__name__}", f"p={p.tolist()}: {e!r}", None)
+            usual_table = None
+        for fname, form in vector_forms(p):
+            for name, mk in raw_objects(form).items():
+                if name not in usual:
+                    continue
+                try:
+                    pieces, ev, hi = recover_partition(mk()[1], 1 << 12, extra=alias_edges(K))
+                except Exception as e:  # noqa
+                    sh.violation(f"C02:rawx:{name}:raises-{type(e).__name__}:vector-as-{fname}", f"p={p.tolist()}: {e!r}", None)
+                    continue
+                sh.count("evaluations", ev)
+                if pieces != usual[name]:
+                    sh.violation(f"C02:rawx:{name}:answers-depend-on-the-form-of-the-vector:vector-as-{fname}",
+                                 f"p={p.tolist()}: {len(pieces)} pieces {pieces[:4]} ... instead of {len(usual[name])} pieces {usual[name][:4]} ... with the float array", None)
+            if usual_table is not None:
+                try:
+                    got = table_batch(T.TableMethod(form, _ident), words, len(words))
+                    sh.count("evaluations", len(words))
+                    if got != usual_table:
+                        sh.violation(f"C02:rawx:table:answers-depend-on-the-form-of-the-vector:vector-as-{fname}",
+                                     f"p={p.tolist()}: sample({len(words)}) on scripted words differs from the answers with the float array", None)
+                except Exception as e:  # noqa
+                    sh.violation(f"C02:rawx:table:raises-{type(e).__name__}:vector-as-{fname}", f"p={p.tolist()}: {e!r}", None)
         sh.outcome(tuple(p.tolist()))
     sh.nontriv()
+
+
+def thresholds_vector(K):
+    """a vector of K entries that are zero except at the indices around the limits of the small integer types (127 / 128,
+    255 / 256, 32767 / 32768, 65535 / 65536), at 0 and at K - 1, where p = (m + f) / 256 with m >= 1 (every such state owns
+    slots of a 256-slot table), weights growing with the index, fractional parts f in eighths (one of them 0) that sum to 2."""
+    at = sorted({i for i in (0, 127, 128, 255, 256, 32767, 32768, 65535, 65536, K - 1) if 0 <= i < K})
+    n = len(at)
+    pattern = [4, 2, 2, 1, 1, 2, 0, 1, 1, 2]
+    f = [pattern[j % len(pattern)] for j in range(n)]
+    while sum(f) % 8:
+        f[-1] += 1
+    whole = 256 - sum(f) // 8
+    tot = sum(j + 1 for j in range(n))
+    m = [1 + ((whole - n) * (j + 1)) // tot for j in range(n)]
+    m[-1] += whole - sum(m)
+    p = np.zeros(K)
+    for t, mk, fk in zip(at, m, f):
+        p[t] = (mk + fk / 8.0) / 256.0
+    return p
 
 
 def big_vector(K, shape):
@@ -627,9 +850,15 @@ def big_vector(K, shape):
         w[:3] = 0.0
         w = 0.08 * w / w.sum()
         w[:3] = [0.5, 0.3, 0.12]
+    elif shape == "thresholds":
+        return thresholds_vector(K)
     else:
         raise ValueError(shape)
     return w / w.sum()
+
+
+def size_class(K):
+    return ":more-than-65536-entries" if K > 65536 else ":more-than-32768-entries" if K > 32768 else ""
 
 
 def _rawbig(sh, case):
@@ -639,30 +868,48 @@ def _rawbig(sh, case):
     K, shape = case["K"], case["shape"]
     p = big_vector(K, shape)
     label = f"{shape} vector of {K} entries"
-    n0 = 1 << int(math.ceil(math.log2(16 * K)))
-    for name, mk in raw_samplers(p).items():
+    sfx = size_class(K)
+    # sparse vectors: every piece of a correct sampler is longer than 2^-9 but for the alias pieces, which start at the column
+    # edges (all probed); a sweep of 2^17 probes is enough whatever K
+    n0 = 1 << (17 if shape == "thresholds" and K > 4096 else int(math.ceil(math.log2(16 * K))))
+    for name, mk in raw_objects(p).items():
         try:
-            f = mk()
+            s_, f = mk()
             pieces, ev, hi = recover_partition(f, n0, extra=alias_edges(K) if name == "alias" else ())
         except Exception as e:  # noqa
-            sh.violation(f"C02:rawbig:{name}:raises-{type(e).__name__}", f"{label}: {e!r}", None)
+            sh.violation(f"C02:rawbig:{name}:raises-{type(e).__name__}{sfx}", f"{label}: {e!r}", None)
             continue
         sh.count("evaluations", ev)
-        judge_vector(sh, "rawbig", name, p, pieces, hi, label)
+        judge_vector(sh, "rawbig", name, p, pieces, hi, label, sfx)
+        judge_raw_batch(sh, "rawbig", name, s_, f, pieces, hi, label, sfx)
         sh.outcome((K, shape, name, len(pieces)))
-    if shape == "dominant":
+    if shape in ("dominant", "thresholds"):
         try:
             tm = T.TableMethod(p, _ident)
             prob = table_law(sh, tm, lambda r: int(np.asarray(r).ravel()[0]), K)
         except Exception as e:  # noqa
-            sh.violation(f"C02:rawbig:table:raises-{type(e).__name__}", f"{label}: {e!r}", None)
+            sh.violation(f"C02:rawbig:table:raises-{type(e).__name__}{sfx}", f"{label}: {e!r}", None)
         else:
             for k in sorted(set(prob) - set(range(K))):
-                sh.violation("C02:rawbig:table:state-outside-range", f"{label}: state {k}", None)
-            for k in range(K):
-                if abs(prob.get(k, 0.0) - p[k]) > 2.0 ** -20:
-                    sh.violation("C02:rawbig:table:law-differs", f"{label}: state {k} has probability {prob.get(k, 0.0)!r} instead of {p[k]!r}", None)
+                sh.violation(f"C02:rawbig:table:state-outside-range{sfx}", f"{label}: state {k}", None)
+            bad = [k for k in range(K) if abs(prob.get(k, 0.0) - p[k]) > 2.0 ** -20]
+            for k in bad[:6]:
+                c2 = "zero-probability-state-returned" if p[k] == 0 else "law-differs"
+                sh.violation(f"C02:rawbig:table:{c2}{sfx}", f"{label}: state {k} has probability {prob.get(k, 0.0)!r} instead of {p[k]!r}", None)
             sh.outcome((K, shape, "table", len(prob)))
+            # batch call on scripted words = element-wise calls, the size in each form; an empty batch
+            try:
+                words = [((k * 2654435761) % (1 << 32)) for k in range(1, 97)] + [low for low in range(256)]
+                single = [table_batch(tm, [w], 1)[0] for w in words]
+                for fname, conv in SIZE_FORMS:
+                    if table_batch(tm, words, conv(len(words))) != single:
+                        sh.violation(f"C02:rawbig:table:batch-differs-from-single-word-calls:size-as-{fname}{sfx}",
+                                     f"{label}: sample({len(words)}) on scripted words differs from {len(words)} calls of sample(1)", None)
+                sh.count("evaluations", len(words) * (1 + len(SIZE_FORMS)))
+                if len(table_batch(tm, [], 0)):
+                    sh.violation(f"C02:rawbig:table:batch-of-size-0-not-empty{sfx}", label, None)
+            except Exception as e:  # noqa
+                sh.violation(f"C02:rawbig:table:batch-call-raises-{type(e).__name__}{sfx}", f"{label}: {e!r}", None)
     sh.nontriv()
 
 
@@ -945,32 +1192,95 @@ class Driver:
             return as_inc(r[0])
         raise ValueError(meth)
 
-    def batch(self, us):
+    def batch(self, us, size=None):
+        """sample(size) on the scripted uniforms us; size = len(us) as a Python int unless given (numpy integer, 0-d array)."""
         import rpylib.distribution.univariate.uniform as U
         import rpylib.distribution.variate.table as T
 
+        size = len(us) if size is None else size
         if self.meth == "TABLE":
             orig = T.random.getrandbits
             words = collections.deque(word_of(u) for u in us)
             T.random.getrandbits = lambda nbits: word_for(words.popleft(), nbits)
             try:
-                r = self.s.sample(len(us))
+                r = self.s.sample(size)
             finally:
                 T.random.getrandbits = orig
             return [as_inc(x) for x in r]
         orig = U.npr.uniform
         U.npr.uniform = uniform_answer(us, self.hi)
         try:
-            r = self.s.sample(size=len(us))
+            r = self.s.sample(size=size)
         finally:
             U.npr.uniform = orig
         return [as_inc(x) for x in r]
+
+    def draw_as(self, u, form):
+        """the single-uniform entry point with the uniform handed over as a numpy scalar / a (fresh) 0-d array / a Python int."""
+        if self.meth in ("TABLE", "BINARYSEARCHTREEADAPTED"):
+            return None
+        return self.draw({"numpy-float64": np.float64, "0-d-array": np.array, "python-int": int}[form](u))
 
 
 def single_entry(proc, case):
     """(u -> increment tuple, upper end of the domain) of the single-uniform entry point; kept for other modules."""
     drv = Driver(proc, case["method"])
     return drv.draw, drv.hi
+
+
+def argument_forms(sh, case, tag, cls, us, hi):
+    """(4b) the same call with its arguments in the other legal forms gives the same answers: the size of the batch as numpy
+    integer (what the path simulators pass: Poisson numbers) or 0-d array, an empty batch, a batch of one; the uniform of the
+    single entry point as numpy scalar, 0-d array and (u = 0) Python int. Two sampler objects (one for the batch calls, one
+    for the single entry point), 12 uniforms spread over the pieces."""
+    meth = case["method"]
+    if len(us) > 12:
+        us = [us[round(i * (len(us) - 1) / 11)] for i in range(12)]
+    try:
+        ref = Driver(build_process(case)[0], meth)
+        single = [ref.draw(u) for u in us]
+    except Exception as e:  # noqa
+        sh.violation(f"C02:chain:{tag}:single-uniform-entry-raises-{type(e).__name__}:{cls}", f"{e!r}", None)
+        return
+    try:
+        d = Driver(build_process(case)[0], meth)
+    except Exception as e:  # noqa
+        sh.violation(f"C02:chain:{tag}:constructor-raises-{type(e).__name__}:{cls}", f"{e!r}", None)
+        return
+    for fname, conv in SIZE_FORMS[1:]:
+        try:
+            got = d.batch(us, conv(len(us)))
+            sh.count("evaluations", len(us))
+            if got != single:
+                sh.violation(f"C02:chain:{tag}:batch-differs-from-single-uniform-entry:size-as-{fname}:{cls}",
+                             f"sample(size={conv(len(us))!r}) on scripted uniforms gives {got[:6]} ..., element-wise {single[:6]} ...", None)
+        except Exception as e:  # noqa
+            sh.violation(f"C02:chain:{tag}:batch-call-raises-{type(e).__name__}:size-as-{fname}:{cls}", f"{e!r}", None)
+    try:
+        if len(d.batch(us, 0)):
+            sh.violation(f"C02:chain:{tag}:batch-of-size-0-not-empty:{cls}", "sample(size=0) returns states", None)
+        got1 = d.batch(us[-1:], 1)
+        if got1 != single[-1:]:
+            sh.violation(f"C02:chain:{tag}:batch-differs-from-single-uniform-entry:size-1:{cls}",
+                         f"sample(size=1) after sample(size=0), u={us[-1]!r}: {got1}, single entry {single[-1:]}", None)
+        sh.count("evaluations", 2)
+    except Exception as e:  # noqa
+        sh.violation(f"C02:chain:{tag}:batch-call-raises-{type(e).__name__}:size-0-then-1:{cls}", f"{e!r}", None)
+    for form in ("numpy-float64", "0-d-array", "python-int"):
+        try:
+            for u, want in zip(us, single):
+                if form == "python-int" and u != 0.0:
+                    continue
+                got = ref.draw_as(u, form)
+                if got is None:
+                    break
+                sh.count("evaluations")
+                if got != want:
+                    sh.violation(f"C02:chain:{tag}:answer-depends-on-the-form-of-the-uniform:u-as-{form}:{cls}",
+                                 f"u={u!r} handed over as {form}: {got}, as Python float: {want}", None)
+                    break
+        except Exception as e:  # noqa
+            sh.violation(f"C02:chain:{tag}:single-uniform-entry-raises-{type(e).__name__}:u-as-{form}:{cls}", f"{e!r}", None)
 
 
 def _chain(sh, case):
@@ -1020,6 +1330,7 @@ def _chain(sh, case):
                              f"sample(size={len(us)}) on scripted words differs from {len(us)} calls of sample(1)", None)
         except Exception as e:  # noqa
             sh.violation(f"C02:chain:{tag}:batch-call-raises-{type(e).__name__}:{cls}", f"sample(size=n): {e!r}", None)
+        argument_forms(sh, case, tag, cls, us, 1.0)
         sh.outcome((tag, cls, case["grid"].get("refine"), nstates, len(prob)))
         if sum(1 for v in law.values() if v > 0) >= 2:
             sh.nontriv()
@@ -1140,11 +1451,13 @@ def _chain(sh, case):
                              {"u": us[j] if j >= 0 else None})
         except Exception as e:  # noqa
             sh.violation(f"C02:chain:{tag}:batch-call-raises-{type(e).__name__}:{cls}", f"sample(size=n): {e!r}", None)
+        argument_forms(sh, case, tag, cls, us, hi)
     # (5) the law of a sampler built AFTER a sampler of another model was built and used on the same grid object (memos shared
     # between objects - class attributes, module-level caches keyed by cell bounds only - show here whatever the order in
     # which the cases of a run are scheduled), and the answers of that other sampler once the new one has been used
+    # (not on the one-state grid: it has no left point, and the other model has negative jumps)
     if meth in ("INVERSION", "BINARYSEARCHTREEADAPTED1D", "BINARYSEARCHTREEADAPTED") and case["grid"].get("refine", 0) == 0 \
-            and nstates <= 130:
+            and nstates <= 130 and case["grid"].get("label") != "one-state":
         with hidden_choice(first_choice):
             try:
                 ccase = companion_model(case)
@@ -1177,6 +1490,132 @@ def _chain(sh, case):
             and case["grid"].get("refine") == 0 and model_label(case["model"]) == "hem":
         sh.sample({"sub": "chain", "case": case, "pieces": [(s, list(st)) for s, st in pieces[:8]],
                    "target": {str(k): v for k, v in list(law.items())[:6]}, "max_abs_error": worst})
+
+
+def local_piece(f, u0, hi):
+    """(state, first float, first float after) of the maximal interval around u0 on which f is constant, found by doubling
+    steps away from u0 and bisection to neighbouring floats (assumes that the pre-image of f(u0) is an interval, as it is for
+    nested bisections); number of evaluations."""
+    s = f(u0)
+    ev = 1
+
+    def edge(direction):
+        nonlocal ev
+        inside = u0
+        step = max(abs(u0), hi * 2.0 ** -30) * 2.0 ** -30
+        while True:
+            out = u0 + direction * step
+            if direction < 0 and out <= 0.0:
+                ev += 1
+                if f(0.0) == s:
+                    return 0.0
+                out = 0.0
+            elif direction > 0 and out >= hi:
+                out = math.nextafter(hi, -math.inf)
+                ev += 1
+                if f(out) == s:
+                    return hi
+            else:
+                ev += 1
+                if f(out) == s:
+                    inside = out
+                    step *= 2
+                    continue
+            a, b = (out, inside) if direction < 0 else (inside, out)
+            while True:
+                m = a + (b - a) / 2
+                if m <= a or m >= b:
+                    return b
+                ev += 1
+                if (f(m) == s) == (direction < 0):
+                    b = m
+                else:
+                    a = m
+
+    lo = edge(-1)
+    up = edge(+1)
+    return s, lo, up, ev
+
+
+def _chainbig(sh, case):
+    """a chain too large for a complete recovery: a sweep of 4096 uniforms (mid-points of the lattice 1/4096), then for up to 12
+    spread states of each class met (on each axis, off the axes) the whole interval of uniforms mapped to the state, whose
+    length must be mass(reference cell) / intensity; origin / off-grid answers are judged on every probe; the states of the
+    sweep are drawn again downwards (one object) and in one batch call."""
+    dim, meth = case["dim"], case["method"]
+    tag = f"d{dim}:{meth.lower()}"
+    cls = f"{grid_label(case['grid'])}:{model_label(case['model'])}"
+    sh.cls(f"chainbig:{tag}")
+    try:
+        proc, grid = build_process(case)
+        drv = Driver(proc, meth)
+    except Exception as e:  # noqa
+        sh.violation(f"C02:chainbig:{tag}:constructor-raises-{type(e).__name__}:{cls}", f"{e!r}", None)
+        return
+    hi = drv.hi
+    lam = float(proc.intensity_of_jumps)
+    orig = list(grid.origin_coordinate)
+    sizes = [len(ax) for ax in grid.axes]
+    cells = []
+    for k, axis in enumerate(grid.axes):
+        cs, central = O.ref_cells(axis, orig[k], middle=None)
+        cells.append([c if c is not None else central for c in cs])
+    n_sweep = 4096
+    sweep = {}
+    try:
+        for j in range(n_sweep):
+            u = hi * (j + 0.5) / n_sweep
+            sweep.setdefault(drv.draw(u), u)
+    except Exception as e:  # noqa
+        sh.violation(f"C02:chainbig:{tag}:single-uniform-entry-raises-{type(e).__name__}:{cls}", f"{e!r}", None)
+        return
+    sh.count("evaluations", n_sweep)
+    groups = {}
+    for st, u in sweep.items():
+        if not any(st) or not all(0 <= o + i < n for o, i, n in zip(orig, st, sizes)):
+            c2 = "origin-returned" if not any(st) else "state-outside-grid"
+            sh.violation(f"C02:chainbig:{tag}:{c2}:{cls}", f"increment {st} returned for u={u!r}", None)
+            continue
+        moving = [k for k, v in enumerate(st) if v]
+        groups.setdefault(f"axis-{moving[0]}" if len(moving) == 1 else "off-the-axes", []).append((st, u))
+    for g in sorted(groups):
+        lst = sorted(groups[g])
+        sh.cls(f"chainbig:{tag}:{g}")
+        sel = lst if len(lst) <= 12 else [lst[round(i * (len(lst) - 1) / 11)] for i in range(12)]
+        for st, u in sel:
+            try:
+                s_, a, b, ev = local_piece(drv.draw, u, hi)
+            except Exception as e:  # noqa
+                sh.violation(f"C02:chainbig:{tag}:single-uniform-entry-raises-{type(e).__name__}:{cls}", f"{e!r}", None)
+                break
+            sh.count("evaluations", ev)
+            idx = [o + i for o, i in zip(orig, st)]
+            lo = tuple(float(cells[k][i][0]) for k, i in enumerate(idx))
+            up = tuple(float(cells[k][i][1]) for k, i in enumerate(idx))
+            pk = max(float(proc.model.mass(lo, up)), 0.0) / lam
+            got = (b - a) / hi
+            if abs(got - pk) > 1e-12 + 1e-9 * pk:
+                sh.violation(f"C02:chainbig:{tag}:law-differs:{g}:{cls}",
+                             f"state increment {st}: the uniforms [{a!r}, {b!r}) are mapped to it, length {got!r}, target mass/intensity {pk!r}",
+                             {"increment": st, "recovered": got, "target": pk})
+                break
+    if not any(g.startswith("axis") for g in groups):
+        sh.cap("chainbig: no state of an axis bucket was met by the sweep")
+    # the same object once more, downwards; a fresh object in one batch call
+    try:
+        us = sorted(sweep.values())
+        want = {u: st for st, u in sweep.items()}
+        again = [drv.draw(u) for u in us[::-1]]
+        if again != [want[u] for u in us[::-1]]:
+            sh.violation(f"C02:chainbig:{tag}:answer-depends-on-earlier-draws:{cls}", "the uniforms of the sweep drawn again downwards on the same object give other states", None)
+        batch = Driver(build_process(case)[0], meth).batch(us)
+        if batch != [want[u] for u in us]:
+            sh.violation(f"C02:chainbig:{tag}:batch-differs-from-single-uniform-entry:{cls}", f"sample(size={len(us)}) on scripted uniforms differs from the element-wise calls", None)
+        sh.count("evaluations", 2 * len(us))
+    except Exception as e:  # noqa
+        sh.violation(f"C02:chainbig:{tag}:batch-call-raises-{type(e).__name__}:{cls}", f"{e!r}", None)
+    sh.outcome((tag, cls, len(sweep), tuple(sorted((g, len(v)) for g, v in groups.items()))))
+    sh.nontriv()
 
 
 # ----------------------------------------------------------------------------------------------------------------------
@@ -1214,8 +1653,8 @@ def companion_model(case):
     return dict(case, model={"margins": margins[1:] + margins[:1], "copula": {"kind": "clayton", "theta": 3.0, "eta": 0.0}})
 
 
-PURE_OPS = ("reset", "copy", "pickle", "other")
-OP_WORDS = {"reset": "cost-reset", "copy": "deepcopy", "pickle": "dill-round-trip", "batch": "batch-call",
+PURE_OPS = ("reset", "copy", "shallow", "pickle", "other")
+OP_WORDS = {"reset": "cost-reset", "copy": "deepcopy", "shallow": "copy.copy", "pickle": "dill-round-trip", "batch": "batch-call",
             "other": "second-sampler-on-the-grid"}
 
 
@@ -1254,6 +1693,7 @@ def _history(sh, case):
         law = target_law(d0.proc, d0.proc.grid, dim)
         nstates = len(law)
         nmenu = case.get("menu", 14)
+        expected = {}
         if meth == "TABLE":
             menu_us = [(j + 0.37) / nmenu for j in range(nmenu)]
         else:
@@ -1264,6 +1704,10 @@ def _history(sh, case):
                 menu_us.append(s + (nx[0] - s) / 2)
             menu_us += [pieces[len(pieces) // 2][0], 0.0, math.nextafter(hi, -math.inf)]
             menu_us = sorted({u for u in menu_us if 0.0 <= u < hi})  # (the middle of a last piece of one float rounds to hi)
+            # the whole menu (every piece), for the long run at the end: the answers of the first sampler
+            for (s, st), nx in zip(pieces, pieces[1:] + [(hi, None)]):
+                if s + (nx[0] - s) / 2 < hi:
+                    expected[s + (nx[0] - s) / 2] = st
             if len(menu_us) > nmenu:
                 # spread over the whole of [0, hi): the draws beyond the memoised prefix are the interesting ones
                 idx = sorted({round(i * (len(menu_us) - 1) / (nmenu - 1)) for i in range(nmenu)})
@@ -1306,10 +1750,24 @@ def _history(sh, case):
             if kind == "reset":
                 drv.proc.reset_one_simulation_cost()
                 drv.s.reset_sampling_cost()
-            elif kind == "copy":
-                st["drv"] = Driver(copy.deepcopy(drv.proc), meth)
-            elif kind == "pickle":
-                st["drv"] = Driver(dill.loads(dill.dumps(drv.proc)), meth)
+            elif kind in ("copy", "shallow", "pickle"):
+                if kind == "copy":
+                    twin = copy.deepcopy(drv.proc)
+                elif kind == "pickle":
+                    twin = dill.loads(dill.dumps(drv.proc))
+                else:
+                    # copy.copy of the process and of its sampler: the containers are shared with the original, which is alive
+                    twin = copy.copy(drv.proc)
+                    twin.sampling = copy.copy(drv.proc.sampling)
+                st["drv"] = Driver(twin, meth)
+                # the ORIGINAL is used further (sub-menu) once the copy exists: it answers as before, and the copy - drawn
+                # from in the events that follow - is not affected
+                for j in sub:
+                    got = drv.draw(menu_us[j])
+                    if got != fresh[menu_us[j]]:
+                        st["bad"].append((f"original-answer-changes-after-{OP_WORDS[kind]}",
+                                          f"the original maps u={menu_us[j]!r} to {got} once a copy exists ({OP_WORDS[kind]}), a fresh sampler to {fresh[menu_us[j]]}"))
+                        break
             elif kind == "other":
                 if st["comp"] is None:
                     st["comp"] = new_driver(ccase, grid=drv.proc.grid)
@@ -1389,6 +1847,43 @@ def _history(sh, case):
 
         s_, t_, d_ = core.bfs(sh, build, menu, canon, invariant, draws_max + 1, max_states=4000)
         sh.count("evaluations", t_)
+        # accumulation: ONE sampler drawn several hundred times - every u of the whole menu (up to 240 pieces) downwards, upwards,
+        # cost reset, in steps of 7, deepcopy, in steps of 11 on the copy, then one batch call with all of them
+        if not expected:
+            expected = dict(fresh)
+        allu = sorted(expected)
+        if len(allu) > 240:
+            allu = [allu[round(i * (len(allu) - 1) / 239)] for i in range(240)]
+        m = len(allu)
+
+        def stride(k):
+            k = next(x for x in range(k, k + m + 1) if math.gcd(x, m) == 1) if m > 1 else 1
+            return [allu[(i * k) % m] for i in range(m)]
+
+        try:
+            dl = new_driver()
+            n_long = 0
+            for phase, seq in (("downwards", allu[::-1]), ("upwards", allu), ("reset", None), ("in-steps-of-7", stride(7)),
+                               ("deepcopy", None), ("in-steps-of-11", stride(11)), ("batch", allu)):
+                if seq is None:
+                    if phase == "reset":
+                        dl.proc.reset_one_simulation_cost()
+                        dl.s.reset_sampling_cost()
+                    else:
+                        dl = Driver(copy.deepcopy(dl.proc), meth)
+                    continue
+                got = dl.batch(seq) if phase == "batch" else [dl.draw(u) for u in seq]
+                n_long += len(seq)
+                wrong = [(u, g, expected[u]) for u, g in zip(seq, got) if g != expected[u]] if len(got) == len(seq) else [(None, len(got), len(seq))]
+                if wrong:
+                    u, g, w = wrong[0]
+                    sh.violation(f"C02:history:{tag}:answer-changes-in-a-long-run-of-draws",
+                                 f"one sampler drawn {n_long} times (phase {phase}): u={u!r} -> {g}, the first sampler of the case gave {w} ({len(wrong)} of {len(seq)} differ)", None)
+                    break
+            sh.count("evaluations", n_long)
+            sh.count("long-run-draws", n_long)
+        except Exception as e:  # noqa
+            sh.violation(f"C02:history:{tag}:long-run-raises-{type(e).__name__}", f"{e!r}", None)
         sh.outcome((tag, nstates, s_, t_))
         sh.nontriv()
         if case["storage"]:
